@@ -2,8 +2,8 @@
 """Regenerates MANIFEST.json from lib/props.py (claimed properties) and lib/manifest_meta.py."""
 import json, os, sys
 sys.path.insert(0, os.path.dirname(os.path.abspath(__file__)))
-from props import PROPS
-from manifest_meta import META, NOT_APPLICABLE, HOOK_COMMITS
+from props import PROPS, METAS as META
+from manifest_meta import NOT_APPLICABLE, HOOK_COMMITS
 
 BASELINE = "cd /repo && cargo nextest run --workspace --no-fail-fast --tool-config-file pb:/w/lib/nextest.toml --profile pb --test-threads 8 --offline  (fallback: cargo test --workspace --no-fail-fast --offline)"
 
